@@ -414,6 +414,9 @@ end
 section
 variable {ν : Type} [DecidableEq ν]
 
+/-- a leaf fiber (association list of values) as a tree of depth 1 -/
+def leafFiber {κ : Type} (f : Fib κ ν) : Tree κ ν 1 := f
+
 /-- `estimateShape` of one fiber: last coordinate + 1, or 0 -/
 def estShape {α : Type} (f : Fib Int α) : Nat :=
   match f.getLast? with
